@@ -166,6 +166,96 @@ def ScaleOp.factor? : ScaleOp → Option Rat
 /-- the factor in force after a history that started at factor `s` -/
 def lastFactor (s : Rat) (ops : List ScaleOp) : Rat := ops.foldl (fun acc o => (o.factor?).getD acc) s
 
+/-! ### the bounding-box ("cartesian") layout of the spatial marginal -/
+
+/-- the loop of `CartesianGrid2D._build_bitmask_vec` (regions.py:783-793) seen from one lattice node `p = (row, column)`:
+    `a[idy[k], idx[k], 1] = k` (the last cell hashed to a node wins) and `a[idy[k], idx[k], 0] = 0` (mask open) when
+    `poly_mask[k] == 1`. The state is (mask open?, `idx_map` entry). Which node a cell is hashed to (midpoint → `bin1d_vec`
+    on the cleaned edge ranges) is C01's subject: the positions are inputs. -/
+def hashLoop (p : Nat × Nat) : List (Cell × (Nat × Nat)) → Nat → Bool × Option Nat → Bool × Option Nat
+  | [], _, st => st
+  | (c, q) :: rest, k, st =>
+    hashLoop p rest (k + 1) (if q = p then (st.1 || decide (c.flag = 1), some k) else st)
+
+/-- the cell whose value `get_cartesian` shows at node (i, j): `idx_map[i, j]` when `bbox_mask[i, j] == 0`, else nothing -/
+def cartIdx (cells : List Cell) (pos : List (Nat × Nat)) (i j : Nat) : Option Nat :=
+  let st := hashLoop (i, j) (cells.zip pos) 0 (false, none)
+  if st.1 then st.2 else none
+
+/-- `region.get_cartesian(v)` (regions.py:657-674): `v[idx_map[i, j]]` where the mask is open, NaN (`none`) elsewhere;
+    the array has one row per lattice latitude and one column per lattice longitude -/
+def getCartesian (cells : List Cell) (pos : List (Nat × Nat)) (ny nx : Nat) (v : List Rat) : List (List (Option Rat)) :=
+  (List.range ny).map (fun i => (List.range nx).map (fun j => (cartIdx cells pos i j).bind (fun k => v[k]?)))
+
+/-- `spatial_counts(cartesian=True)` (forecasts.py:207-208): the map layout of `numpy.sum(self.data, axis=1)` -/
+def spatialCountsCartesian (F : Forecast) (pos : List (Nat × Nat)) (ny nx : Nat) : List (List (Option Rat)) :=
+  getCartesian F.cells pos ny nx (spatialCounts F)
+
+/-- `numpy.nansum` of a map layout -/
+def nansum (g : List (List (Option Rat))) : Rat := (g.map (fun r => (r.map (fun o => o.getD 0)).sum)).sum
+
+/-! ### calls that only read the forecast, interleaved with the scale calls -/
+
+/-- `target_event_rates(catalog, scale)` (forecasts.py:289-329): the rate of every target event and the total expected
+    count, of `data` (`scale=False`, `days = none`) or of a COPY of `data` divided by the number of days of the forecast
+    period (`scale=True`). Nothing is stored. -/
+def targetEventRates (F : Forecast) (days : Option Rat) (pts : List (Rat × Rat × Rat)) : List (Option Rat) × Rat :=
+  let d := days.getD 1
+  (pts.map (fun p => (getRates F p.1 p.2.1 p.2.2).map (· / d)), total F / d)
+
+/-- what the read-only calls are asked about: target events / lookup points, and the map layout of the region -/
+structure Env where
+  pts : List (Rat × Rat × Rat)
+  pos : List (Nat × Nat)
+  ny : Nat
+  nx : Nat
+
+inductive Read where
+  | targetRates (days : Option Rat)   -- `target_event_rates(catalog, scale=days.isSome)`
+  | rates                             -- `get_rates(lons, lats, mags)`
+  | sum                               -- `sum()` / `event_count`
+  | spatial                           -- `spatial_counts()`
+  | spatialCartesian                  -- `spatial_counts(cartesian=True)`
+  | magnitude                         -- `magnitude_counts()`
+  | data                              -- the `data` property
+  deriving DecidableEq, Repr
+
+inductive Obs where
+  | rates (r : List (Option Rat)) (total : Option Rat)
+  | scalar (v : Rat)
+  | vec (v : List Rat)
+  | grid (g : List (List (Option Rat)))
+  deriving DecidableEq, Repr
+
+/-- the value a read-only call returns: a function of the stored rates and the factor in force, nothing else -/
+def observe (E : Env) (F : Forecast) : Read → Obs
+  | .targetRates days => let r := targetEventRates F days E.pts; .rates r.1 (some r.2)
+  | .rates => .rates (E.pts.map (fun p => getRates F p.1 p.2.1 p.2.2)) none
+  | .sum => .scalar (total F)
+  | .spatial => .vec (spatialCounts F)
+  | .spatialCartesian => .grid (spatialCountsCartesian F E.pos E.ny E.nx)
+  | .magnitude => .vec (magnitudeCounts F)
+  | .data => .vec (data F)
+
+inductive Call where
+  | write (o : ScaleOp)
+  | read (r : Read)
+  deriving DecidableEq, Repr
+
+/-- one call of a history: `scale` / `scale_to_test_date` replace the factor, every other public method leaves the
+    object as it is and returns its observation -/
+def stepCall (E : Env) (st : Forecast × List Obs) : Call → Forecast × List Obs
+  | .write o => (applyOp st.1 o, st.2)
+  | .read r => (st.1, st.2 ++ [observe E st.1 r])
+
+def runCalls (E : Env) (F : Forecast) (cs : List Call) : Forecast × List Obs := cs.foldl (stepCall E) (F, [])
+
+/-- the scale calls of a history -/
+def writesOf : List Call → List ScaleOp
+  | [] => []
+  | .write o :: cs => o :: writesOf cs
+  | .read _ :: cs => writesOf cs
+
 /-! ### the file as the caller sees it -/
 
 def Row.swapCols (r : Row) : Row := { r with c0 := r.c2, c1 := r.c3, c2 := r.c0, c3 := r.c1 }
